@@ -837,3 +837,173 @@ func TestVerifReplay_WatcherWritesAfterIssue(t *testing.T) {
 		t.Fatalf("CONFIRMED: a mint request ran between the watcher's re-read and its write; the watcher wrote PAID over ISSUED and the quote of 8 sat was minted a second time")
 	}
 }
+
+// C03 / NUT-20: a quote locked to a public key is issued only with a signature
+// of that key over the quote id followed by the B_ of EVERY submitted output,
+// in order. Independent reading of NUT-20 (no call into package nut20).
+func TestVerifReplay_Nut20LockedQuote(t *testing.T) {
+	m := vNewMint(t, 0, nil)
+	priv, _ := secp256k1.GeneratePrivateKey()
+	other, _ := secp256k1.GeneratePrivateKey()
+	sign := func(k *secp256k1.PrivateKey, quote string, bms cashu.BlindedMessages) string {
+		msg := quote
+		for _, bm := range bms {
+			msg += bm.B_
+		}
+		h := sha256.Sum256([]byte(msg))
+		s, err := schnorr.Sign(k, h[:])
+		if err != nil {
+			t.Fatal(err)
+		}
+		return hex.EncodeToString(s.Serialize())
+	}
+	newQuote := func() string {
+		q, err := m.RequestMintQuote(nut04.PostMintQuoteBolt11Request{Amount: 7, Unit: "sat", Pubkey: hex.EncodeToString(priv.PubKey().SerializeCompressed())})
+		if err != nil {
+			t.Fatalf("RequestMintQuote: %v", err)
+		}
+		return q.Id
+	}
+	type attempt struct {
+		name string
+		sig  func(q string, o vOut) string
+	}
+	bad := []attempt{
+		{"no signature", func(q string, o vOut) string { return "" }},
+		{"signature of another key", func(q string, o vOut) string { return sign(other, q, o.bms) }},
+		{"signature over the first output only", func(q string, o vOut) string { return sign(priv, q, o.bms[:1]) }},
+		{"signature over the outputs in another order", func(q string, o vOut) string {
+			return sign(priv, q, cashu.BlindedMessages{o.bms[2], o.bms[1], o.bms[0]})
+		}},
+		{"signature over another quote id", func(q string, o vOut) string { return sign(priv, q+"x", o.bms) }},
+		{"signature over other outputs", func(q string, o vOut) string { return sign(priv, q, vOutputs(t, m, []uint64{4, 2, 1}).bms) }},
+	}
+	for _, a := range bad {
+		q := newQuote()
+		o := vOutputs(t, m, []uint64{4, 2, 1})
+		sigs, err := m.MintTokens(nut04.PostMintBolt11Request{Quote: q, Outputs: o.bms, Signature: a.sig(q, o)})
+		if err == nil {
+			t.Fatalf("CONFIRMED: locked quote issued %d signatures with %s", len(sigs), a.name)
+		}
+	}
+	// the honest request is accepted
+	q := newQuote()
+	o := vOutputs(t, m, []uint64{4, 2, 1})
+	if _, err := m.MintTokens(nut04.PostMintBolt11Request{Quote: q, Outputs: o.bms, Signature: sign(priv, q, o.bms)}); err != nil {
+		t.Fatalf("CONFIRMED: locked quote refused with the owner's signature over exactly the submitted outputs: %v", err)
+	}
+}
+
+// C09 / C07: after a restart every stored keyset comes back with the same id,
+// public keys, fee and active flag - also when the configured fee has changed.
+func TestVerifReplay_RestartKeysets(t *testing.T) {
+	dir := t.TempDir()
+	load := func(fee uint) *Mint {
+		m, err := LoadMint(Config{MintPath: dir, LightningClient: &lightning.FakeBackend{}, LogLevel: Disable, InputFeePpk: fee})
+		if err != nil {
+			t.Fatalf("LoadMint: %v", err)
+		}
+		return m
+	}
+	type snap struct {
+		fee    uint
+		active bool
+		idx    uint32
+		keys   string
+	}
+	take := func(m *Mint) map[string]snap {
+		out := map[string]snap{}
+		for id, ks := range m.keysets {
+			b, _ := json.Marshal(ks.PublicKeys())
+			out[id] = snap{ks.InputFeePpk, ks.Active, ks.DerivationPathIdx, string(b)}
+		}
+		return out
+	}
+	m := load(100)
+	if _, err := m.RotateKeyset(200); err != nil {
+		t.Fatal(err)
+	}
+	if _, err := m.RotateKeyset(300); err != nil {
+		t.Fatal(err)
+	}
+	before := take(m)
+	activeBefore := m.activeKeyset.Id
+	m.Shutdown()
+	m2 := load(999) // the configured fee only matters for keysets created from now on
+	defer m2.Shutdown()
+	after := take(m2)
+	if len(after) != len(before) {
+		t.Fatalf("CONFIRMED: %d keysets before the restart, %d after", len(before), len(after))
+	}
+	for id, b := range before {
+		a, ok := after[id]
+		if !ok {
+			t.Fatalf("CONFIRMED: keyset %s (index %d) is gone after the restart", id, b.idx)
+		}
+		if a != b {
+			t.Fatalf("CONFIRMED: keyset %s changed across the restart: before {fee %d active %v index %d}, after {fee %d active %v index %d}, same keys: %v", id, b.fee, b.active, b.idx, a.fee, a.active, a.idx, a.keys == b.keys)
+		}
+	}
+	if m2.activeKeyset == nil || m2.activeKeyset.Id != activeBefore {
+		t.Fatalf("CONFIRMED: active keyset before the restart %s, after %v", activeBefore, m2.activeKeyset)
+	}
+	n := 0
+	for _, ks := range m2.keysets {
+		if ks.Active {
+			n++
+		}
+	}
+	if n != 1 {
+		t.Fatalf("CONFIRMED: %d active keysets after the restart", n)
+	}
+}
+
+// C16: the reported totals follow every issuance and redemption exactly.
+func TestVerifReplay_TotalsFollowOperations(t *testing.T) {
+	m := vNewMint(t, 0, nil)
+	sum := func(mp map[string]uint64) (s uint64) {
+		for _, v := range mp {
+			s += v
+		}
+		return
+	}
+	totals := func() (uint64, uint64) {
+		i, err := m.IssuedEcash()
+		if err != nil {
+			t.Fatal(err)
+		}
+		r, err := m.RedeemedEcash()
+		if err != nil {
+			t.Fatal(err)
+		}
+		return sum(i), sum(r)
+	}
+	ps := vMintProofs(t, m, []uint64{8, 4, 2, 1})
+	if i, r := totals(); i != 15 || r != 0 {
+		t.Fatalf("CONFIRMED: after minting 15: issued %d redeemed %d", i, r)
+	}
+	o := vOutputs(t, m, []uint64{4, 4, 4, 2, 1})
+	sigs, err := m.Swap(ps, o.bms)
+	if err != nil {
+		t.Fatalf("Swap: %v", err)
+	}
+	var out uint64
+	for _, s := range sigs {
+		out += s.Amount
+	}
+	if i, r := totals(); i != 15+out || r != 15 {
+		t.Fatalf("CONFIRMED: after swapping 15 for %d: issued %d (want %d) redeemed %d (want 15)", out, i, 15+out, r)
+	}
+	// a refused swap (inputs already spent) changes nothing
+	o2 := vOutputs(t, m, []uint64{8, 4, 2, 1})
+	if _, err := m.Swap(ps, o2.bms); err == nil {
+		t.Fatalf("CONFIRMED: spent inputs swapped again")
+	}
+	if i, r := totals(); i != 15+out || r != 15 {
+		t.Fatalf("CONFIRMED: a refused swap moved the totals: issued %d redeemed %d", i, r)
+	}
+	b, err := m.TotalBalance()
+	if err != nil || b != out {
+		t.Fatalf("CONFIRMED: balance %d (err %v), want %d", b, err, out)
+	}
+}
